@@ -80,8 +80,9 @@ CHECKS = {
         "and exact comparison of predictor matrices across responses",
         "Numeric, categorical (str / Categorical / ordered), y[ident], y['quoted level'], absent levels, call responses, "
         "prop / p / proportion with column and constant trials are recomputed from the frame; invalid responses must be "
-        "refused; the common and group matrices of `R ~ rhs`, `y ~ rhs` and `rhs` alone must be identical, and a design "
-        "without `~` has no response.",
+        "refused (sums, products, literals, group items alone or next to a term); calls of the caller's functions that "
+        "return two categories (array, Series, ordered Categorical) give one indicator column per level; the common and "
+        "group matrices of `R ~ rhs`, `y ~ rhs` and `rhs` alone must be identical, and a design without `~` has no response.",
         "Exploration.",
         "DESIGN.md section 3, C15",
     ),
@@ -89,7 +90,8 @@ CHECKS = {
         "Hypothesis-generated helper calls on training and new frames; pointwise oracles recomputed with numpy and "
         "exact synonymy of alias pairs",
         "binary (integer, string, boolean-expression input; success present, absent, omitted), offset (column, int, float, "
-        "negative and arithmetic constants, calls), prop (column, constant, keyword and expression trials, invalid counts), "
+        "negative and arithmetic constants, calls, the logarithm of an exposure of zero), prop (column, constant, keyword, "
+        "expression and caller-variable trials, invalid counts), "
         "I(e) / {e}, and every alias pair written both ways are evaluated at training time and on new frames made of "
         "training rows and of fresh values.",
         "Exploration.",
@@ -100,8 +102,10 @@ CHECKS = {
         "Slices (keys, order, contiguity, cover), indexing by term name and refusal of unknown names, equality of "
         "design_matrix / np.asarray / as_dataframe / tuple unpacking, unique labels, aligned row counts, str and repr "
         "reporting the actual shape, and non-aliasing of derived and training objects, for training objects and objects "
-        "derived by evaluate_new_data (from the training object or chained) with and without new groups.",
-        "Exploration.",
+        "derived by evaluate_new_data (from the training object or chained) with and without new groups; levels that differ "
+        "only in surrounding blanks and a level called like the constant column of the sum coding are part of every frame.",
+        "Exploration.  One open known finding (KF-C17-1: a kept level called 'mean' under the full-rank sum coding gives one "
+        "label twice) is excluded by a predicate that accepts exactly that pair of labels.",
         "DESIGN.md section 3, C17",
     ),
     "C05": (
